@@ -652,6 +652,8 @@ var guards = []guardSpec{
 	{"segmentIterator", "next", "recordFitsGuard", "io.ErrUnexpectedEOF"},
 	{"segmentIterator", "next", "deleteBitGuard", "recordTypeDelete"},
 	{"index", "put", "indexFullGuard", "errFull"},
+	{"DB", "Put", "keyTooLargeGuard", "errKeyTooLarge"},
+	{"DB", "Put", "valueTooLargeGuard", "errValueTooLarge"},
 }
 
 // pureDefine: `x := e` with one variable, e free of calls other than conversions, len and
@@ -769,7 +771,334 @@ func (p *pkgInfo) translateGuard(g guardSpec, known map[string]bool) (def string
 	return fmt.Sprintf("/-- `%s.%s`: `if %s` -/\ndef %s %s : Bool :=\n  decide %s\n", g.recv, g.fn, p.src(h.is.Cond), g.name, t.namedBinders(), c), ""
 }
 
-func genFuncs(root *pkgInfo) {
+
+// A request is the value a method hands to one call ("anchor"), as a function of the receiver's
+// integer fields at entry: `none` when the method returns before the call, `some v` otherwise.
+// Body shape: `x := e`, `x = e`, `x op= e` on locals; `if c { ...return }`; `if c { assignments }
+// [else { assignments }]` (one local assigned: becomes `let x := if c then .. else ..`); and
+// `if err := call(...); err != nil { return err }`, which is the anchor or an opaque effect. The
+// receiver fields an effect may write (assignments in the callee, transitively through methods of
+// the same receiver) must not be read afterwards - otherwise the item is untranslated.
+type requestSpec struct {
+	recv, fn, name string
+	anchor         string // method name of the anchor call
+	arg            int
+}
+
+var requests = []requestSpec{
+	{"osMMapFile", "mremap", "mremapRequest", "mmap", 1},
+}
+
+type reqTr struct {
+	*fnTr
+	spec      requestSpec
+	clobbered map[string]bool
+	width     int
+}
+
+// fieldsWritten: first-level receiver fields a method of this package assigns.
+func (p *pkgInfo) fieldsWritten(fn *types.Func, seen map[*types.Func]bool, out map[string]bool) {
+	if seen[fn] {
+		return
+	}
+	seen[fn] = true
+	var fd *ast.FuncDecl
+	for _, f := range p.files {
+		for _, d := range f.Decls {
+			if g, ok := d.(*ast.FuncDecl); ok && p.info.Defs[g.Name] == fn {
+				fd = g
+			}
+		}
+	}
+	if fd == nil || fd.Body == nil || fd.Recv == nil || len(fd.Recv.List) != 1 || len(fd.Recv.List[0].Names) != 1 {
+		out["*"] = true
+		return
+	}
+	robj := p.info.Defs[fd.Recv.List[0].Names[0]]
+	first := func(e ast.Expr) {
+		var last string
+		for {
+			switch y := e.(type) {
+			case *ast.ParenExpr:
+				e = y.X
+				continue
+			case *ast.StarExpr:
+				e = y.X
+				continue
+			case *ast.IndexExpr:
+				e = y.X
+				continue
+			case *ast.SelectorExpr:
+				last = y.Sel.Name
+				e = y.X
+				continue
+			case *ast.Ident:
+				if p.info.Uses[y] == robj {
+					if last == "" {
+						out["*"] = true
+					} else {
+						out[last] = true
+					}
+				}
+			}
+			return
+		}
+	}
+	ast.Inspect(fd.Body, func(n ast.Node) bool {
+		switch x := n.(type) {
+		case *ast.AssignStmt:
+			for _, l := range x.Lhs {
+				first(l)
+			}
+		case *ast.IncDecStmt:
+			first(x.X)
+		case *ast.UnaryExpr:
+			if x.Op == token.AND {
+				first(x.X)
+			}
+		case *ast.CallExpr:
+			if sel, ok := x.Fun.(*ast.SelectorExpr); ok {
+				if s := p.info.Selections[sel]; s != nil && s.Kind() == types.MethodVal {
+					if id, ok := sel.X.(*ast.Ident); ok && p.info.Uses[id] == robj {
+						if callee, ok := s.Obj().(*types.Func); ok && callee.Pkg() == p.pkg {
+							p.fieldsWritten(callee, seen, out)
+						}
+					}
+				}
+			}
+		}
+		return true
+	})
+}
+
+// effectCall: `if err := X.m(args); err != nil { return err }`
+func effectCall(s *ast.IfStmt) *ast.CallExpr {
+	as, ok := s.Init.(*ast.AssignStmt)
+	if !ok || len(as.Lhs) != 1 || len(as.Rhs) != 1 || s.Else != nil {
+		return nil
+	}
+	call, ok := as.Rhs[0].(*ast.CallExpr)
+	if !ok || len(s.Body.List) != 1 {
+		return nil
+	}
+	if _, ok := s.Body.List[0].(*ast.ReturnStmt); !ok {
+		return nil
+	}
+	return call
+}
+
+func (t *reqTr) checkReads(e ast.Expr) {
+	ast.Inspect(e, func(n ast.Node) bool {
+		if sel, ok := n.(*ast.SelectorExpr); ok {
+			if pt, ok := t.path(sel); ok && pt.root == t.recvObj && len(pt.fields) > 0 {
+				if t.clobbered["*"] || t.clobbered[pt.fields[0]] {
+					bail("field %s read after a call that may write it", t.p.src(sel))
+				}
+			}
+		}
+		return true
+	})
+}
+
+func (t *reqTr) effect(call *ast.CallExpr) {
+	sel, ok := call.Fun.(*ast.SelectorExpr)
+	if !ok {
+		bail("effect %s", t.p.src(call))
+	}
+	s := t.p.info.Selections[sel]
+	if s == nil || s.Kind() != types.MethodVal {
+		bail("effect %s", t.p.src(call))
+	}
+	fn, ok := s.Obj().(*types.Func)
+	if !ok || fn.Pkg() != t.p.pkg {
+		t.clobbered["*"] = true
+		return
+	}
+	t.p.fieldsWritten(fn, map[*types.Func]bool{}, t.clobbered)
+}
+
+func (t *reqTr) isAnchor(call *ast.CallExpr) bool {
+	sel, ok := call.Fun.(*ast.SelectorExpr)
+	return ok && sel.Sel.Name == t.spec.anchor
+}
+
+func (t *reqTr) assign(s *ast.AssignStmt) (name string, w int, rhs string, obj types.Object) {
+	if len(s.Lhs) != 1 || len(s.Rhs) != 1 {
+		bail("multi-assignment")
+	}
+	id, ok := s.Lhs[0].(*ast.Ident)
+	if !ok {
+		bail("assignment to %s before the request", t.p.src(s.Lhs[0]))
+	}
+	if s.Tok == token.DEFINE {
+		obj = t.p.info.Defs[id]
+	} else {
+		obj = t.p.info.Uses[id]
+	}
+	if obj == nil {
+		bail("unresolved %s", id.Name)
+	}
+	w, _ = intWidth(obj.Type())
+	t.checkReads(s.Rhs[0])
+	switch s.Tok {
+	case token.DEFINE, token.ASSIGN:
+		rhs = t.expr(s.Rhs[0])
+	default:
+		ops := map[token.Token]token.Token{token.ADD_ASSIGN: token.ADD, token.SUB_ASSIGN: token.SUB, token.MUL_ASSIGN: token.MUL,
+			token.AND_ASSIGN: token.AND, token.OR_ASSIGN: token.OR, token.XOR_ASSIGN: token.XOR, token.AND_NOT_ASSIGN: token.AND_NOT,
+			token.SHL_ASSIGN: token.SHL, token.SHR_ASSIGN: token.SHR}
+		op, ok := ops[s.Tok]
+		if !ok {
+			bail("assignment operator %s", s.Tok)
+		}
+		be := &ast.BinaryExpr{X: id, Op: op, Y: s.Rhs[0]}
+		t.p.info.Types[be] = types.TypeAndValue{Type: obj.Type()}
+		rhs = t.expr(be)
+	}
+	return leanIdent(id.Name), w, rhs, obj
+}
+
+// assignedIn: locals assigned (not declared) in a statement list.
+func (t *reqTr) assignedIn(stmts []ast.Stmt, out map[types.Object]*ast.Ident) {
+	for _, s := range stmts {
+		ast.Inspect(s, func(n ast.Node) bool {
+			if as, ok := n.(*ast.AssignStmt); ok && as.Tok != token.DEFINE {
+				for _, l := range as.Lhs {
+					if id, ok := l.(*ast.Ident); ok {
+						if obj := t.p.info.Uses[id]; obj != nil {
+							out[obj] = id
+						}
+					}
+				}
+			}
+			return true
+		})
+	}
+}
+
+// value: the statements as an expression for the final value of local `x`.
+func (t *reqTr) value(stmts []ast.Stmt, x string) string {
+	if len(stmts) == 0 {
+		return x
+	}
+	rest := stmts[1:]
+	switch s := stmts[0].(type) {
+	case *ast.AssignStmt:
+		name, w, rhs, _ := t.assign(s)
+		return fmt.Sprintf("(let %s : BitVec %d := %s; %s)", name, w, rhs, t.value(rest, x))
+	case *ast.IfStmt:
+		if call := effectCall(s); call != nil {
+			if t.isAnchor(call) {
+				bail("request inside a branch")
+			}
+			t.effect(call)
+			return t.value(rest, x)
+		}
+		return t.merge(s, func() string { return t.value(rest, x) })
+	}
+	bail("statement %s", t.p.src(stmts[0]))
+	return ""
+}
+
+// merge: an if statement whose branches fall through and assign one local.
+func (t *reqTr) merge(s *ast.IfStmt, rest func() string) string {
+	if s.Init != nil {
+		bail("if with init statement")
+	}
+	var els []ast.Stmt
+	if s.Else != nil {
+		eb, ok := s.Else.(*ast.BlockStmt)
+		if !ok {
+			bail("else shape")
+		}
+		els = eb.List
+	}
+	set := map[types.Object]*ast.Ident{}
+	t.assignedIn(s.Body.List, set)
+	t.assignedIn(els, set)
+	if len(set) != 1 {
+		bail("if statement assigning %d locals", len(set))
+	}
+	t.checkReads(s.Cond)
+	c := t.cond(s.Cond)
+	for obj, id := range set {
+		w, _ := intWidth(obj.Type())
+		x := leanIdent(id.Name)
+		a := t.value(s.Body.List, x)
+		b := t.value(els, x)
+		return fmt.Sprintf("(let %s : BitVec %d := (if %s then %s else %s); %s)", x, w, c, a, b, rest())
+	}
+	return ""
+}
+
+func (t *reqTr) request(stmts []ast.Stmt) string {
+	if len(stmts) == 0 {
+		bail("the request is not reached")
+	}
+	rest := stmts[1:]
+	switch s := stmts[0].(type) {
+	case *ast.ReturnStmt:
+		return "none"
+	case *ast.AssignStmt:
+		name, w, rhs, _ := t.assign(s)
+		return fmt.Sprintf("(let %s : BitVec %d := %s;\n  %s)", name, w, rhs, t.request(rest))
+	case *ast.IfStmt:
+		if call := effectCall(s); call != nil {
+			if t.isAnchor(call) {
+				if t.spec.arg >= len(call.Args) {
+					bail("anchor has %d arguments", len(call.Args))
+				}
+				for _, a := range call.Args {
+					t.checkReads(a)
+				}
+				t.width, _ = intWidth(t.typeOf(call.Args[t.spec.arg]))
+				return "some " + t.expr(call.Args[t.spec.arg])
+			}
+			t.effect(call)
+			return t.request(rest)
+		}
+		if s.Init == nil && returns(s.Body.List) {
+			t.checkReads(s.Cond)
+			c := t.cond(s.Cond)
+			var els string
+			if s.Else != nil {
+				eb, ok := s.Else.(*ast.BlockStmt)
+				if !ok {
+					bail("else shape")
+				}
+				els = t.request(eb.List)
+			} else {
+				els = t.request(rest)
+			}
+			return fmt.Sprintf("(if %s then %s else\n  %s)", c, t.request(s.Body.List), els)
+		}
+		return t.merge(s, func() string { return "\n  " + t.request(rest) })
+	}
+	bail("statement %s", t.p.src(stmts[0]))
+	return ""
+}
+
+func (p *pkgInfo) translateRequest(r requestSpec) (def string, err string) {
+	defer func() {
+		if e := recover(); e != nil {
+			if u, ok := e.(untranslatable); ok {
+				def, err = "", u.why
+				return
+			}
+			panic(e)
+		}
+	}()
+	fd := p.funcDecl(r.recv, r.fn)
+	if fd == nil || fd.Body == nil {
+		return "", "function not found"
+	}
+	t := &reqTr{fnTr: newTr(p, fd, map[string]bool{}, false), spec: r, clobbered: map[string]bool{}}
+	body := t.request(fd.Body.List)
+	return fmt.Sprintf("/-- `%s.%s`: argument %d of the call of `%s` (`none`: returns before it) -/\ndef %s %s : Option (BitVec %d) :=\n  %s\n",
+		r.recv, r.fn, r.arg, r.anchor, r.name, t.namedBinders(), t.width, body), ""
+}
+
+func genFuncs(root, fsp *pkgInfo) {
 	var sb strings.Builder
 	sb.WriteString("namespace Pogreb.Generated.Funcs\n\n")
 	known := map[string]bool{}
@@ -789,6 +1118,14 @@ func genFuncs(root *pkgInfo) {
 			continue
 		}
 		fmt.Fprintf(&sb, "%sdef %s_translated : Bool := true\n\n", def, g.name)
+	}
+	for _, r := range requests {
+		def, why := fsp.translateRequest(r)
+		if def == "" {
+			fmt.Fprintf(&sb, "-- %s: NOT TRANSLATED (%s)\ndef %s_translated : Bool := false\n\n", r.name, why, r.name)
+			continue
+		}
+		fmt.Fprintf(&sb, "%sdef %s_translated : Bool := true\n\n", def, r.name)
 	}
 	sb.WriteString("end Pogreb.Generated.Funcs\n")
 	write("Funcs.lean", sb.String())
